@@ -949,7 +949,7 @@ def run_sequence(ctx, cfg, steps, label):
 def w_sequences(ctx: core.Ctx, arg):
     flavours = list(FLAVOURS)
     if arg.get('directed'):
-        for f in flavours[arg['i'] % 4::4] if arg.get('split') else flavours:
+        for f in [flavours[arg['i'] % 4]]:
             for limit in arg['limits']:
                 for name, steps in directed(limit or 1).items():
                     cfg = {'flavour': f, 'max': 20, 'limit': limit, 'mdib': MDIBS[0]}
@@ -981,7 +981,7 @@ def run(ctx: core.Ctx):
         'observation point is the hand-over to the subscriber-facing SOAP client; delivery success is what the subscriber endpoint answered',
     ]
     n_seq, length = (304, 40) if ctx.quick else (5008, 80)
-    jobs = [['w_sequences', {'i': k, 'directed': True, 'split': True, 'limits': [None, 2]}] for k in range(4)]
+    jobs = [['w_sequences', {'i': k, 'directed': True, 'limits': [[None], [2]][k // 4]}] for k in range(8)]
     per = n_seq // 16
     jobs += [['w_sequences', {'i': k, 'n': per, 'len': length}] for k in range(16)]
     core.fanout(ctx, MODULE, 'dispatch', jobs, timeout=2400)
